@@ -55,6 +55,24 @@ static std::string step(const Toks& t)
 		std::string got = hex(&h[0], 20);
 		return got == t[3] ? "ok" : "digest " + got;
 	}
+	if (op == "b64ex" && t.size() == 3) {
+		// every string of the given length over the given alphabet through the decoder; FNV-1a digest of all results
+		std::string alpha = unhex(t[1]);
+		int L = (int)num(t[2]);
+		if (alpha.empty() || L < 0 || L > 10) return "bad-op";
+		unsigned long long h = 1469598103934665603ULL, total = 1;
+		for (int i = 0; i < L; i++) total *= alpha.size();
+		std::string s(L, 0);
+		for (unsigned long long k = 0; k < total; k++) {
+			unsigned long long x = k;
+			for (int i = L - 1; i >= 0; i--) { s[i] = alpha[x % alpha.size()]; x /= alpha.size(); }
+			ByteArray r = decodeBase64(S(s));
+			if (r.length() < 0) return "negative-length at " + hex(s.data(), s.size());
+			h = (h ^ (unsigned long long)(r.length() & 255)) * 1099511628211ULL;
+			for (int i = 0; i < r.length(); i++) h = (h ^ (unsigned long long)r[i]) * 1099511628211ULL;
+		}
+		return str((long long)total) + " " + hex((const char*)&h, 8);
+	}
 	if (op == "b64rt" && t.size() == 2) {
 		Exact d(unhex(t[1]));
 		ByteArray a((const byte*)d.p, (int)d.n);
